@@ -713,7 +713,21 @@ pub fn run(world: &World, cfg: &RunCfg, seed: u64, tag: &str) -> Outcome {
 				batch = kept;
 			}
 			for r in batch {
-				let res = deliver(d, &r);
+				// a panic while a received segment is decoded, validated or cached is a violation of its
+				// own (validation has to *fail*, not take the node's thread down), not a harness error
+				let res = match std::panic::catch_unwind(std::panic::AssertUnwindSafe(|| deliver(d, &r))) {
+					Ok(res) => res,
+					Err(p) => {
+						let msg = p.downcast_ref::<String>().cloned().or_else(|| p.downcast_ref::<&str>().map(|s| s.to_string())).unwrap_or_else(|| "panic".into());
+						let key = ident_key(&r.id);
+						let v = viol(
+							&format!("segment-delivery-panicked:{}", key.0),
+							format!("round {}: add_*_segment panicked on segment {:?} (corruption: {:?}): {}", rounds, key, r.corrupted, msg),
+						);
+						drop(guard);
+						return finish(&mut receiver, Some(v), log, rounds, probes, faults);
+					}
+				};
 				let key = ident_key(&r.id);
 				match (&r.corrupted, &res) {
 					(None, Ok(())) => {
